@@ -64,6 +64,8 @@ type dayAcc struct {
 	// nitrogen budget of the day (from the "evatra-pre" probe to "dayend")
 	nC1, nAufna, nMin, nUms, nN2o, nOut, nDrain, nDenit float64
 	nMinC1                                              float64
+	nPesum, nNfixsum, nAufna1                           float64
+	nAkf                                                int
 	nUnstable                                           bool
 }
 
@@ -180,7 +182,7 @@ func traceLine(work, line string, lineNo int, r *rng, waterEvery int) {
 			}
 			gwfcPrevZeit, gwfcPrevGRW = zeit, g.GRW
 			c1, minp, minC1 := nsum(g)
-			nday = dayAcc{nC1: c1, nAufna: g.AUFNASUM, nMin: minp, nUms: g.UMS, nN2o: g.N2onitsum, nOut: g.OUTSUM, nDrain: g.DRAINLOSS, nDenit: g.CUMDENIT, nMinC1: minC1}
+			nday = dayAcc{nC1: c1, nAufna: g.AUFNASUM, nMin: minp, nUms: g.UMS, nN2o: g.N2onitsum, nOut: g.OUTSUM, nDrain: g.DRAINLOSS, nDenit: g.CUMDENIT, nMinC1: minC1, nPesum: g.PESUM, nNfixsum: g.NFIXSUM, nAkf: g.AKF.Index}
 			// deposition / irrigation N since yesterday's end of day (C02)
 			meas := false
 			for _, m := range g.MESS {
@@ -220,6 +222,9 @@ func traceLine(work, line string, lineNo int, r *rng, waterEvery int) {
 				}
 			}
 		case "nitro-pre":
+			if subd == 1 {
+				nday.nPesum, nday.nAufna1 = g.PESUM, g.AUFNASUM
+			}
 			if nitroEvery > 0 && (r.intn(nitroEvery) == 0 || (subd > 1 && r.intn(3) == 0)) {
 				gg, ll := *g, *n
 				if subd == 1 {
@@ -228,6 +233,19 @@ func traceLine(work, line string, lineNo int, r *rng, waterEvery int) {
 				nmoveCase("trace", &gg, &ll, wdt, subd, zeit)
 			}
 		case "nitro":
+			// C07 "uptake and fixation are credited to the crop exactly once per day": over the Nitro call of sub-step 1 the
+			// crop's N sum gains the uptake counter's gain plus TODAY's fixation as the crop module computed it (g.NFIX; zero
+			// for a non-legume) while a crop stands, over later sub-steps nothing
+			if subd == 1 && g.AKF.Index == nday.nAkf {
+				dP, dA := g.PESUM-nday.nPesum, g.AUFNASUM-nday.nAufna1
+				want := 0.0
+				if zeit >= g.SAAT[g.AKF.Index] && zeit <= g.ERNTE2[g.AKF.Index] {
+					want = g.NFIX
+				}
+				if dP >= -1e-12 && math.Abs(dP-dA-want) > 1e-9*(1+math.Abs(g.PESUM)) {
+					oracleFail("crop-n-credit line=%d zeit=%d crop-n-gain=%v uptake-counter-gain=%v fixation-of-the-day=%v legume=%v", lineNo, zeit, dP, dA, want, g.LEGUM)
+				}
+			}
 			if g.C1NotStable != "" {
 				nday.nUnstable = true
 			}
@@ -244,7 +262,7 @@ func traceLine(work, line string, lineNo int, r *rng, waterEvery int) {
 			day = dayAcc{zeit: zeit, s0: storage(g, 0), fluss0: g.FLUSS0, grw0: g.GRW}
 			// C01: nothing creates or removes water between the end of one day and the start of the next
 			// (constant groundwater level; measurement-overwrite days excluded)
-			if prevDayEndZeit == zeit-1 && g.GRW == prevDayEndGRW {
+			if prevDayEndZeit == zeit-1 && math.Abs(g.GRW-prevDayEndGRW) <= 1e-9 {
 				isMeas := false
 				for _, m := range g.MESS {
 					if m == zeit && m != 0 {
@@ -306,6 +324,13 @@ func traceLine(work, line string, lineNo int, r *rng, waterEvery int) {
 						oracleFail("n-balance-loss line=%d zeit=%d steps=%d residual=%g", lineNo, zeit, day.steps, res)
 					} else if clean && !(res <= 1e-8*(1+scale)) {
 						oracleFail("n-balance-gain line=%d zeit=%d steps=%d residual=%g", lineNo, zeit, day.steps, res)
+					}
+				}
+				// nothing lives below the profile: mineral N of the array cells beyond layer N stays zero
+				for i := g.N; i < len(g.C1); i++ {
+					if g.C1[i] != 0 {
+						oracleFail("mineral-n-below-profile line=%d zeit=%d cell=%d value=%v layers=%d", lineNo, zeit, i+1, g.C1[i], g.N)
+						break
 					}
 				}
 				// C02 "plus dissolved mineral fertiliser": the dissolved total never goes down on an ordinary day
